@@ -404,7 +404,31 @@ func (x *xtr) ifStmt(t *ast.IfStmt, rest func() string) string {
 		if s, ok := x.bucketPutIf(t, rest); ok {
 			return s
 		}
-		x.bad(t, "if with an init statement (only `if err := bucket.Put(k, v); err != nil { … return … }`)")
+		if a, ok := t.Init.(*ast.AssignStmt); ok && a.Tok == token.DEFINE {
+			if _, failing := x.failingCall(a); !failing {
+				// `if v, ok := m[k]; ok {..}`: the definition first, then the test; the names are in scope of the `if` only
+				saved := x.env
+				x.env = copyEnv(saved)
+				pre := x.assign(a)
+				var names []string
+				for _, l := range a.Lhs {
+					if id, ok := l.(*ast.Ident); ok {
+						names = append(names, id.Name)
+					}
+				}
+				c := *t
+				c.Init = nil
+				r := joinLines(pre, x.ifStmt(&c, func() string {
+					for _, n := range names {
+						delete(x.env, n)
+					}
+					return rest()
+				}))
+				x.env = saved
+				return r
+			}
+		}
+		x.bad(t, "if with an init statement (only `if err := bucket.Put(k, v); err != nil { … return … }` and `if v.. := e; cond`)")
 	}
 	if pre, ok := x.mutCond(t); ok {
 		// `if s.f.M(args) {` with a mutating method M of the opaque field f: the call first, then the test
@@ -569,6 +593,9 @@ func (x *xtr) assign(t *ast.AssignStmt) string {
 				if ty.k == kConst {
 					ty = tInt
 				}
+				if ty.k == kFConst {
+					ty = tF64
+				}
 				name, n := id.Name, l
 				decl = append(decl, func() { x.declare(n, name, ty) })
 			} else {
@@ -609,6 +636,9 @@ func (x *xtr) assign(t *ast.AssignStmt) string {
 			v := x.expr(rhs)
 			if v.ty.k == kConst {
 				v = xval{s: x.co(rhs, v, tInt), ty: tInt}
+			}
+			if v.ty.k == kFConst {
+				v = xval{s: x.co(rhs, v, tF64), ty: tF64} // Go: an untyped floating-point constant defaults to float64
 			}
 			if v.ty.k == kNil {
 				x.bad(t, "definition from nil")
